@@ -51,6 +51,10 @@ class Problem:
             self.freqs = [1.0, 3.0]
             self.pairs = {1: ('TxED-1', 'f-1'), 2: ('TxED-1', 'f-2'),
                           3: ('TxED-2', 'f-1'), 4: ('TxED-2', 'f-2')}
+        elif variant.get("one"):
+            self.src = {'TxED-1': (-50, 0, 0, 20, 5)}
+            self.freqs = [1.0]
+            self.pairs = {1: ('TxED-1', 'f-1')}
         elif variant.get("twofreq"):
             self.src = {'TxED-1': (-50, 0, 0, 20, 5)}
             self.freqs = [1.0, 3.0]
